@@ -226,6 +226,9 @@ func (s Scopes) cols(ty string, coll string) []colRef {
 	return out
 }
 
+// ColOf returns a random column reference of the given type (and collation, "" = any) or nil.
+func (g *Gen) ColOf(s Scopes, ty, coll string) *Expr { return g.colOf(s, ty, coll) }
+
 func (g *Gen) colOf(s Scopes, ty, coll string) *Expr {
 	cs := s.cols(ty, coll)
 	if len(cs) == 0 {
